@@ -77,6 +77,11 @@ pub const SNIPPETS: &[&str] = &[
     "S2 C1 ::= { S1 | S3 }",
     "S3 C1 ::= { S2 }",
     "S4 C1 ::= { ... }",
+    // a cycle of object sets that does not contain the set it is reached from
+    "Sa C1 ::= { Sb }\nSb C1 ::= { Sc }\nSc C1 ::= { Sb }",
+    // a named bit far beyond anything a value could spell out
+    "Bits11 ::= BIT STRING { a(0), b(100000000000000) }\nvb11 Bits11 ::= { a }",
+    "Bits12 ::= BIT STRING { a(0), b(18446744073709551616) }\nU12 ::= SEQUENCE { f Bits12 DEFAULT { b } }",
     "U1 ::= SEQUENCE { id C1.&id ({S1}), val C1.&Type ({S1}{@id}) }",
     "U2 ::= SEQUENCE { id C1.&id ({S2}), val C1.&Type ({S2}{@id}) OPTIONAL }",
     "U3 ::= C1.&Type",
